@@ -98,6 +98,10 @@ func RequestLayout(sp *spec.Spec, svc *spec.Service, m *spec.Method) *Layout {
 		return "", false
 	}
 	pathVars := PathVars(l.FullPath) // base paths may bind parameters too
+	// mapping elements written at service level and at API level apply to every endpoint
+	hParams := append(append(append([]spec.Map{}, h.Params...), svc.Params...), sp.APIParams...)
+	hHeaders := append(append(append([]spec.Map{}, h.Headers...), svc.Headers...), sp.APIHeaders...)
+	hCookies := append(append(append([]spec.Map{}, h.Cookies...), svc.Cookies...), sp.APICookies...)
 	if e.K != spec.KObject {
 		l.Whole = true
 		p := &Place{Attr: "", T: m.Payload, Req: "required", Loc: spec.LocBody}
@@ -137,13 +141,13 @@ func RequestLayout(sp *spec.Spec, svc *spec.Service, m *spec.Method) *Layout {
 		}
 		if h.MapParams == a.Name {
 			p.Loc, p.Wire = "mapparams", a.Name
-		} else if w, ok := wireOf(h.Params, a.Name); ok && !inPath {
+		} else if w, ok := wireOf(hParams, a.Name); ok && !inPath {
 			p.Loc, p.Wire = spec.LocQuery, w
 		} else if inPath {
 			p.Loc, p.Wire = spec.LocPath, a.Name
-		} else if w, ok := wireOf(h.Headers, a.Name); ok {
+		} else if w, ok := wireOf(hHeaders, a.Name); ok {
 			p.Loc, p.Wire = spec.LocHeader, w
-		} else if w, ok := wireOf(h.Cookies, a.Name); ok {
+		} else if w, ok := wireOf(hCookies, a.Name); ok {
 			p.Loc, p.Wire = spec.LocCookie, w
 		} else {
 			p.Loc, p.Wire = spec.LocBody, a.Name
